@@ -85,39 +85,42 @@ theorem linear_get_pristine {κ : Type} (cmp : Table → Table → κ → Outcom
   rw [history_refines_partial cmp defs _ hl]
   simp [runValue, List.foldl_append, vstep, ht, VState.push]
 
+/-- the regenerated default tables of the NCBI ids (an id the code answers in addition is outside the property) -/
+def ncbiDefaults : List (Nat × Table) := genDefaults.filter fun p => ncbiIds.contains p.1
+
 /-- The known finding, kernel-checked: request table 11, re-weight it, request table 11 again — the second
 request shows the re-weighted table, value semantics says pristine. -/
 def h₀ : List (Op Unit) := [Op.get 11, Op.reweight 0 "ATGATG".toList, Op.get 11]
 def noCmp : Table → Table → Unit → Outcome Table := fun _ _ _ => .err
 
-theorem alias_witness : ¬ (runHeap noCmp genDefaults h₀ = runValue addTable noCmp genDefaults h₀) := by decide
+theorem alias_witness : ¬ (runHeap noCmp ncbiDefaults h₀ = runValue addTable noCmp ncbiDefaults h₀) := by decide
 
 /-- ... and it is not Linear -/
-theorem alias_witness_nonlinear : Linear genDefaults h₀ = false := by decide
+theorem alias_witness_nonlinear : Linear ncbiDefaults h₀ = false := by decide
 
 /-- second class: reading through a stale handle -/
 def h₁ : List (Op Unit) := [Op.get 1, Op.reweight 0 "ATG".toList, Op.observe 0]
-theorem stale_witness : ¬ (runHeap noCmp genDefaults h₁ = runValue addTable noCmp genDefaults h₁) ∧ Linear genDefaults h₁ = false := by decide
+theorem stale_witness : ¬ (runHeap noCmp ncbiDefaults h₁ = runValue addTable noCmp ncbiDefaults h₁) ∧ Linear ncbiDefaults h₁ = false := by decide
 
 /-- The second finding, kernel-checked: a table detached from every default table (JSON round trip) is
 re-weighted; the handle it was re-weighted through shows the new weights although value semantics leaves
 the receiver unchanged.  No default table is involved: the last step shows table 1 pristine in both semantics. -/
 def h₂ : List (Op Unit) := [Op.get 1, Op.json 0, Op.reweight 1 "ATG".toList, Op.observe 1, Op.get 1]
 
-theorem receiver_witness : ¬ (runHeap noCmp genDefaults h₂ = runValue addTable noCmp genDefaults h₂) ∧
-    Linear genDefaults h₂ = false := by decide
+theorem receiver_witness : ¬ (runHeap noCmp ncbiDefaults h₂ = runValue addTable noCmp ncbiDefaults h₂) ∧
+    Linear ncbiDefaults h₂ = false := by decide
 
 /-- … and no default table is involved: the two semantics differ at step 3 (the look at the JSON copy) and
 agree at the last step (default table 1 requested again: pristine in both) -/
 theorem receiver_witness_steps :
-    (runHeap noCmp genDefaults h₂)[3]? ≠ (runValue addTable noCmp genDefaults h₂)[3]? ∧
-    (runHeap noCmp genDefaults h₂)[4]? = (runValue addTable noCmp genDefaults h₂)[4]? ∧
-    (runHeap noCmp genDefaults h₂)[4]? = (genDefaults.lookup 1).map Obs.table := by decide
+    (runHeap noCmp ncbiDefaults h₂)[3]? ≠ (runValue addTable noCmp ncbiDefaults h₂)[3]? ∧
+    (runHeap noCmp ncbiDefaults h₂)[4]? = (runValue addTable noCmp ncbiDefaults h₂)[4]? ∧
+    (runHeap noCmp ncbiDefaults h₂)[4]? = (ncbiDefaults.lookup 1).map Obs.table := by decide
 
 /-- which finding a break belongs to is decided by the region it exposes: a default table for `h₀`, `h₁`,
-a built table for `h₂` (`genDefaults.length = 25`) -/
-theorem witness_regions : breaks genDefaults h₀ = [8] ∧ breaks genDefaults h₁ = [0] ∧ breaks genDefaults h₂ = [25] ∧
-    genDefaults.length = 25 := by decide
+a built table for `h₂` (`ncbiDefaults.length = 25`) -/
+theorem witness_regions : breaks ncbiDefaults h₀ = [8] ∧ breaks ncbiDefaults h₁ = [0] ∧ breaks ncbiDefaults h₂ = [25] ∧
+    ncbiDefaults.length = 25 := by decide
 
 /-- `breaks` lists nothing exactly on the Linear histories -/
 theorem breaksFrom_nil_iff {κ : Type} (defs : List (Nat × Table)) (hist : List (Op κ)) :
@@ -149,7 +152,7 @@ theorem linear_iff_no_breaks {κ : Type} (defs : List (Nat × Table)) (hist : Li
 
 /-- Linear is not vacuous and is weaker than "never touch a re-weighted handle again": re-weighting through a
 stale handle, then reading the newest result, adding, serialising is Linear -/
-example : Linear genDefaults ([Op.get 1, Op.reweight 0 "ATG".toList, Op.reweight 0 "GCT".toList, Op.observe 2,
+example : Linear ncbiDefaults ([Op.get 1, Op.reweight 0 "ATG".toList, Op.reweight 0 "GCT".toList, Op.observe 2,
     Op.get 2, Op.add 2 4, Op.json 5, Op.reweight 6 "TAA".toList, Op.observe 7, Op.observe 5] : List (Op Unit)) = true := by decide
 
 /-! ### concurrent re-weighting of different tables -/
